@@ -69,7 +69,106 @@ func mutateXML(r *rng.R, x string) (string, string) {
 		t := tags[r.Intn(len(tags))]
 		return t[0], t[1], true
 	}
-	switch r.Intn(31) {
+	switch r.Intn(37) {
+	case 31:
+		// legal respellings of tags: white space before the closing bracket of end tags and start tags
+		ws := []string{" ", "\n", "\t ", " \r\n"}[r.Intn(4)]
+		every := r.Range(1, 3)
+		n := 0
+		re := regexp.MustCompile(`</[A-Za-z0-9:]+>`)
+		if r.Chance(1, 3) {
+			re = regexp.MustCompile(`</(m:[A-Za-z]+|w:sdt[A-Za-z]*|w:t|w:instrText)>`)
+			every = 1
+		}
+		out := re.ReplaceAllStringFunc(x, func(m string) string {
+			n++
+			if n%every != 0 {
+				return m
+			}
+			return m[:len(m)-1] + ws + ">"
+		})
+		if r.Bool() {
+			out = regexp.MustCompile(`<([A-Za-z0-9]+:[A-Za-z0-9]+)>`).ReplaceAllString(out, "<$1"+ws+">")
+		}
+		return out, "whitespace-in-tags"
+	case 32:
+		// attribute values in single quotes
+		return regexp.MustCompile(` ([A-Za-z0-9:]+)="([^"'<>]*)"`).ReplaceAllString(x, " $1='$2'"), "single-quoted-attributes"
+	case 33:
+		// empty-element tags written as start/end pairs and the other way round
+		if r.Bool() {
+			return regexp.MustCompile(`<([A-Za-z0-9:]+)((?: [^<>/]*(?:"[^"]*")?)*)/>`).ReplaceAllString(x, "<$1$2></$1>"), "empty-elements-as-pairs"
+		}
+		return regexp.MustCompile(`<([A-Za-z0-9:]+)((?: [^<>/]*)?)></([A-Za-z0-9:]+)>`).ReplaceAllStringFunc(x, func(m string) string {
+			sm := regexp.MustCompile(`^<([A-Za-z0-9:]+)((?: [^<>/]*)?)></([A-Za-z0-9:]+)>$`).FindStringSubmatch(m)
+			if sm == nil || sm[1] != sm[3] {
+				return m
+			}
+			return "<" + sm[1] + sm[2] + "/>"
+		}), "pairs-as-empty-elements"
+	case 34:
+		// formulas under another prefix, in the default namespace, with white space in their tags, self-closing
+		mns := "http://schemas.openxmlformats.org/officeDocument/2006/math"
+		f := []string{`<oMath xmlns="` + mns + `"><r><t>a+b</t></r></oMath>`,
+			`<mml:oMath xmlns:mml="` + mns + `"><mml:r><mml:t>a</mml:t></mml:r></mml:oMath>`,
+			`<m:oMath xmlns:m="` + mns + `"><m:r><m:t>a</m:t></m:r></m:oMath >`,
+			`<m:oMath xmlns:m="` + mns + `"><m:r><m:t>a</m:t></m:r></m:oMath` + "\n" + `>`,
+			`<m:oMath xmlns:m="` + mns + `" ><m:r ><m:t >a</m:t ></m:r ></m:oMath >`,
+			`<m:oMath xmlns:m="` + mns + `"/>`,
+			`<m:oMath xmlns:m="` + mns + `"></m:oMath>`,
+			`<m:oMathPara xmlns:m="` + mns + `"><m:oMath><m:r><m:t>a</m:t></m:r></m:oMath ></m:oMathPara >`,
+			`<m:oMathPara xmlns:m="` + mns + `"/>`,
+			`<oMathPara xmlns="` + mns + `"><oMath><r><t>q</t></r></oMath></oMathPara>`}[r.Intn(10)]
+		where := r.Intn(3)
+		switch {
+		case where == 0 && strings.Contains(x, "</w:p>"):
+			return strings.Replace(x, "</w:p>", f+"</w:p>", r.Range(1, 2)), "formula-spelling"
+		case where == 1 && strings.Contains(x, "</w:tc>"):
+			return strings.Replace(x, "</w:tc>", "<w:p>"+f+"</w:p></w:tc>", 1), "formula-spelling"
+		}
+		return strings.Replace(x, "<w:body>", "<w:body><w:p>"+f+"</w:p>"+f, 1), "formula-spelling"
+	case 35:
+		// content controls in incomplete but schema-valid forms (w:sdtPr, w:sdtEndPr and w:sdtContent are all optional), among them
+		// table-of-contents controls, which the TOC functions look for
+		toc := `<w:sdtPr><w:docPartObj><w:docPartGallery w:val="Table of Contents"/><w:docPartUnique/></w:docPartObj></w:sdtPr>`
+		v := []string{`<w:sdt>` + toc + `</w:sdt>`, `<w:sdt>` + toc + `<w:sdtContent/></w:sdt>`, `<w:sdt>` + toc + `<w:sdtEndPr/></w:sdt>`,
+			`<w:sdt><w:sdtContent><w:p><w:r><w:t>in control</w:t></w:r></w:p></w:sdtContent></w:sdt>`, `<w:sdt><w:sdtPr/></w:sdt>`,
+			`<w:sdt>` + toc + `<w:sdtContent><w:tbl><w:tr><w:tc><w:p/></w:tc></w:tr></w:tbl></w:sdtContent></w:sdt>`,
+			`<w:sdt><w:sdtPr><w:docPartObj/></w:sdtPr><w:sdtContent><w:p/></w:sdtContent></w:sdt>`,
+			`<w:sdt><w:sdtPr><w:docPartObj><w:docPartGallery/></w:docPartObj></w:sdtPr></w:sdt>`}[r.Intn(8)]
+		if r.Chance(1, 3) && strings.Contains(x, "<w:sectPr") {
+			return strings.Replace(x, "<w:sectPr", v+"<w:sectPr", 1), "incomplete-content-control"
+		}
+		if r.Chance(1, 3) && strings.Contains(x, "</w:tc>") {
+			return strings.Replace(x, "</w:tc>", v+"<w:p/></w:tc>", 1), "incomplete-content-control"
+		}
+		return strings.Replace(x, "<w:body>", "<w:body>"+v, 1), "incomplete-content-control"
+	case 36:
+		// an element removed together with everything in it (optional containers: sdtContent, pPr, tblPr, tblGrid, tcPr, rPr, ...)
+		if a, b, ok := pickTag(); ok && x[a+1] != '/' && x[b-2] != '/' {
+			name := x[a+1 : b-1]
+			if i := strings.IndexAny(name, " \t\n"); i >= 0 {
+				name = name[:i]
+			}
+			depth, pos := 1, b
+			reN := regexp.MustCompile(`<(/?)` + regexp.QuoteMeta(name) + `(?:[ \t\n][^<>]*)?(/?)>`)
+			for depth > 0 {
+				loc := reN.FindStringSubmatchIndex(x[pos:])
+				if loc == nil {
+					break
+				}
+				switch {
+				case loc[2] != loc[3]:
+					depth--
+				case loc[4] == loc[5]:
+					depth++
+				}
+				pos += loc[1]
+			}
+			if depth == 0 {
+				return x[:a] + x[pos:], "delete-subtree"
+			}
+		}
 	case 29:
 		// named character references that XML does not predefine (what an HTML-minded producer writes), in run text and inside formulas
 		ent := []string{"&nbsp;", "&times;", "&alpha;", "&copy;", "&mdash;", "&bogus;", "&#xD800;", "&#0;"}[r.Intn(8)]
@@ -433,6 +532,8 @@ func postOpen(res *core.Result, d *document.Document, r *rng.R, workDir string) 
 		step("SetImageAltText", func() { d.SetImageAltText(info, "alt"); d.SetImageTitle(info, "title") })
 	}
 	step("AddListItem", func() { d.AddListItem("li", nil); d.AddFootnote("t", "n") })
+	// the TOC functions first on the controls the package came with, then on one the library generates
+	step("UpdateTOC", func() { d.UpdateTOC() })
 	step("GenerateTOC", func() { d.GenerateTOC(nil); d.UpdateTOC() })
 	step("AutoGenerateTOC", func() { d.AutoGenerateTOC(nil) })
 	step("RemoveParagraphAt", func() { d.RemoveParagraphAt(0); d.RemoveElementAt(0) })
